@@ -241,6 +241,22 @@ theorem linkFile_spec {w w' : World} {p first : Path} (h : linkFile w p first = 
           subst h
           exact ⟨d, fm, rfl, hg, hf, rfl, rfl⟩
 
+theorem relinkFile_spec {w w' : World} {p first : Path} (h : relinkFile w p first = some w') :
+    ∃ d fm, mkdirAll w.dst (parentOf p) = some d ∧ d.get? p ≠ some .dir ∧ d.get? first = some (.file fm) ∧
+      w'.dst = d.set p (.file fm) ∧ w'.linkMap = w.linkMap := by
+  unfold relinkFile at h
+  cases hm : mkdirAll w.dst (parentOf p) with
+  | none => simp [hm] at h
+  | some d =>
+    simp only [hm] at h
+    split at h
+    · cases h
+    · rename_i fm hf hnd
+      simp only [Option.some.injEq] at h
+      subst h
+      exact ⟨d, fm, rfl, fun hd => hnd hd, hf, rfl, rfl⟩
+    · cases h
+
 /-! ### `perform` by action -/
 
 theorem perform_skip {cfg : Cfg} {w : World} {t : Task} (h : t.act = .skip) : perform cfg w t = some w := by
@@ -262,9 +278,9 @@ def performCU (cfg : Cfg) (w : World) (t : Task) : Option World :=
   | .dir => (mkdirAll w.dst t.rel).map fun d => { w with dst := d }
   | .symlink text => writeSymlink w t.rel text
   | .file m nlink =>
-    if t.act = .create && cfg.hardlinks && decide (1 < nlink) then
+    if (t.act = .create || t.act = .update) && cfg.hardlinks && decide (1 < nlink) then
       match w.linkMap.find? (·.1 == m.ino) with
-      | some (_, first, _) => linkFile w t.rel first
+      | some (_, first, _) => if t.act = .create then linkFile w t.rel first else relinkFile w t.rel first
       | none =>
         (writeFile cfg w t.rel m).map fun w' =>
           let ino := match w'.dst.get? t.rel with | some (.file f) => f.ino | _ => 0
@@ -289,17 +305,18 @@ theorem set_mkdir_anc {d0 d : Map DNode} {p : Path} (v : DNode) (h : mkdirAll d0
   exact mkdirAll_dirs h x hx (isPrefix_parentOf hp hne)
 
 /-- what a successful create/update with a file payload leaves behind: either a freshly written
-    node with the source's data (possibly registering the link group), or a hard link to the
-    registered first path of the group -/
+    node with the source's data (possibly registering the link group), or a name of the registered
+    first path of the group (hard link on creation, re-link on update) -/
 theorem performCU_file {cfg : Cfg} {w w' : World} {t : Task} {m : FileMeta} {n : Nat}
     (hp : t.payload = .file m n) (h : performCU cfg w t = some w') :
     (∃ node, w'.dst.get? t.rel = some (.file node) ∧ Matches cfg node m ∧
         (∀ o, w.dst.get? t.rel = some (.file o) → node.ino = o.ino) ∧
-        (w'.linkMap = w.linkMap ∨
-          (∃ i, w'.linkMap = (m.ino, t.rel, i) :: w.linkMap) ∧ 1 < n ∧ cfg.hardlinks = true ∧ t.act = .create)) ∨
-    (∃ x fm, cfg.hardlinks = true ∧ 1 < n ∧ t.act = .create ∧ x ∈ w.linkMap ∧ x.1 = m.ino ∧
-        w.dst.get? x.2.1 = some (.file fm) ∧ w'.dst.get? t.rel = some (.file fm) ∧
-        w'.linkMap = w.linkMap ∧ x.2.1 ≠ t.rel ∧ w.dst.get? t.rel = none) := by
+        ((w'.linkMap = w.linkMap ∧ ((t.act = .create ∨ t.act = .update) → ¬ (cfg.hardlinks = true ∧ 1 < n))) ∨
+          (∃ i, w'.linkMap = (m.ino, t.rel, i) :: w.linkMap) ∧ 1 < n ∧ cfg.hardlinks = true ∧
+            w.linkMap.find? (·.1 == m.ino) = none)) ∨
+    (∃ x fm, cfg.hardlinks = true ∧ 1 < n ∧ w.linkMap.find? (·.1 == m.ino) = some x ∧ x ∈ w.linkMap ∧
+        x.1 = m.ino ∧ w.dst.get? x.2.1 = some (.file fm) ∧ w'.dst.get? t.rel = some (.file fm) ∧
+        w'.linkMap = w.linkMap ∧ (t.act = .create → w.dst.get? t.rel = none)) := by
   unfold performCU at h
   simp only [hp] at h
   have hwf : ∀ w1, writeFile cfg w t.rel m = some w1 →
@@ -316,29 +333,45 @@ theorem performCU_file {cfg : Cfg} {w w' : World} {t : Task} {m : FileMeta} {n :
   split at h
   · rename_i hc
     simp only [Bool.and_eq_true, decide_eq_true_eq] at hc
-    obtain ⟨⟨hact, hhl⟩, hn⟩ := hc
+    obtain ⟨⟨_, hhl⟩, hn⟩ := hc
     split at h
     · rename_i i first j hfind
-      obtain ⟨d, fm, hm, hnone, hfirst, hd, hl⟩ := linkFile_spec h
-      refine Or.inr ⟨(i, first, j), fm, hhl, hn, by simpa using hact, List.mem_of_find?_eq_some hfind, ?_, ?_, ?_, hl, ?_, ?_⟩
-      · have := List.find?_some hfind; simpa using this
-      · rcases mkdirAll_frame hm first with h2 | ⟨_, _, _, e⟩
+      have hmem := List.mem_of_find?_eq_some hfind
+      have hxi : (i, first, j).1 = m.ino := by have := List.find?_some hfind; simpa using this
+      -- both linking variants: `d.set p (.file fm)` with `fm` the node at `first`
+      have common : ∀ d fm, mkdirAll w.dst (parentOf t.rel) = some d → d.get? first = some (.file fm) →
+          w'.dst = d.set t.rel (.file fm) → w'.linkMap = w.linkMap →
+          w.dst.get? first = some (.file fm) ∧ w'.dst.get? t.rel = some (.file fm) := by
+        intro d fm hm hfirst hd _
+        refine ⟨?_, by rw [hd]; simp⟩
+        rcases mkdirAll_frame hm first with h2 | ⟨_, _, _, e⟩
         · rw [← h2]; exact hfirst
         · rw [hfirst] at e; cases e
-      · rw [hd]; simp
-      · intro he; simp only at he; rw [he, hnone] at hfirst; cases hfirst
-      · rcases mkdirAll_frame hm t.rel with h2 | ⟨_, _, c, _⟩
+      by_cases hcr : t.act = .create
+      · rw [if_pos hcr] at h
+        obtain ⟨d, fm, hm, hnone, hfirst, hd, hl⟩ := linkFile_spec h
+        obtain ⟨c1, c2⟩ := common d fm hm hfirst hd hl
+        refine Or.inr ⟨(i, first, j), fm, hhl, hn, hfind, hmem, hxi, c1, c2, hl, fun _ => ?_⟩
+        rcases mkdirAll_frame hm t.rel with h2 | ⟨_, _, c, _⟩
         · rw [← h2]; exact hnone
         · exact c
-    · cases h1 : writeFile cfg w t.rel m with
+      · rw [if_neg hcr] at h
+        obtain ⟨d, fm, hm, _, hfirst, hd, hl⟩ := relinkFile_spec h
+        obtain ⟨c1, c2⟩ := common d fm hm hfirst hd hl
+        exact Or.inr ⟨(i, first, j), fm, hhl, hn, hfind, hmem, hxi, c1, c2, hl, fun h => absurd h hcr⟩
+    · rename_i hfind
+      cases h1 : writeFile cfg w t.rel m with
       | none => simp [h1] at h
       | some w1 =>
         simp only [h1, Option.map_some, Option.some.injEq] at h
         obtain ⟨node, a, b, c, e⟩ := hwf w1 h1
         subst h
-        exact Or.inl ⟨node, a, b, c, Or.inr ⟨⟨_, by rw [← e]⟩, hn, hhl, by simpa using hact⟩⟩
-  · obtain ⟨node, a, b, c, e⟩ := hwf w' h
-    exact Or.inl ⟨node, a, b, c, Or.inl e⟩
+        exact Or.inl ⟨node, a, b, c, Or.inr ⟨⟨_, by rw [← e]⟩, hn, hhl, hfind⟩⟩
+  · rename_i hc
+    obtain ⟨node, a, b, c, e⟩ := hwf w' h
+    refine Or.inl ⟨node, a, b, c, Or.inl ⟨e, fun hact hh => hc ?_⟩⟩
+    simp only [Bool.and_eq_true, Bool.or_eq_true, decide_eq_true_eq]
+    exact ⟨⟨hact, hh.1⟩, hh.2⟩
 
 theorem performCU_nothing {cfg : Cfg} {w w' : World} {t : Task} (hp : t.payload = .nothing)
     (h : performCU cfg w t = some w') : w' = w := by
@@ -400,9 +433,13 @@ theorem performCU_frame {cfg : Cfg} {w w' : World} {t : Task} (h : performCU cfg
       exact ⟨frameAt_set_mkdir _ hm, fun x hx hpx hne => set_mkdir_anc _ hm x hx hpx hne⟩
     split at h
     · split at h
-      · obtain ⟨d, fm, hm, _, _, hd, _⟩ := linkFile_spec h
-        rw [hd]
-        exact ⟨frameAt_set_mkdir _ hm, fun _ x hx hpx hne => set_mkdir_anc _ hm x hx hpx hne⟩
+      · split at h
+        · obtain ⟨d, fm, hm, _, _, hd, _⟩ := linkFile_spec h
+          rw [hd]
+          exact ⟨frameAt_set_mkdir _ hm, fun _ x hx hpx hne => set_mkdir_anc _ hm x hx hpx hne⟩
+        · obtain ⟨d, fm, hm, _, _, hd, _⟩ := relinkFile_spec h
+          rw [hd]
+          exact ⟨frameAt_set_mkdir _ hm, fun _ x hx hpx hne => set_mkdir_anc _ hm x hx hpx hne⟩
       · cases h1 : writeFile cfg w t.rel m with
         | none => simp [h1] at h
         | some w1 =>
